@@ -981,6 +981,8 @@ def run(ctx: Context, rep) -> None:
     shared.check_no_memo(ctx, rep, "C02.memo")
     from sa.rules import shared as _shared
     _shared.check_fresh_pass(ctx, rep, "C02.fresh-pass")
+    _shared.check_interleave_nonempty(ctx, rep, "C02.interleave")
+    _shared.check_one_shot(ctx, rep, "C02.one-shot", ("sedpack.io", ))
 
 
 
@@ -988,6 +990,12 @@ _IT = "src/sedpack/io/itertools/itertools.py"
 _DI = "src/sedpack/io/dataset_iteration.py"
 _DB = "src/sedpack/io/dataset_base.py"
 SELFTESTS = [
+    dict(rule="C02.interleave", name="half-buffer-can-be-zero", expect="fire", path=_DI,
+         old="                        # round_robin keeps the whole shard files in memory.\n                        buffer_size=file_parallelism,\n",
+         new="                        buffer_size=file_parallelism // 2,\n"),
+    dict(rule="C02.interleave", name="half-buffer-at-least-one-twin", expect="silent", path=_DI,
+         old="                        # round_robin keeps the whole shard files in memory.\n                        buffer_size=file_parallelism,\n",
+         new="                        buffer_size=max(1, file_parallelism // 2) + file_parallelism - max(1, file_parallelism // 2),\n"),
     dict(rule="C02.iter", name="drop-iter-shuffle-buffer", expect="fire", path=_IT,
          old="    # Otherwise the first elements of a list would be iterated multiple times.\n    iterable = iter(iterable)\n",
          new=""),
